@@ -134,6 +134,39 @@ TRUSTED_BASE = [
 ]
 
 
+def crosscheck_extraction(pid, cases, raw_model_lines, k):
+    """re-evaluate a slice of the cases with vm_compute inside coqc and compare with what the extracted
+    OCaml program printed (keeps extraction and the OCaml glue honest) -> (n checked, error or None)"""
+    from . import enc
+    items = []
+    for c in cases:
+        if len(items) >= k:
+            break
+        exp = raw_model_lines.get(c.cid)
+        if exp is None or c.raw_yaml is not None or len(exp) > 20000:
+            continue
+        try:
+            items.append(enc.g_case(len(items), c.doc, c.opts, c.emit_version, c.partial, exp))
+        except Exception:
+            continue
+    if not items:
+        return 0, None
+    adir = os.path.join(BUILD, "audit")
+    os.makedirs(adir, exist_ok=True)
+    f = os.path.join(adir, "cases_%s.v" % pid)
+    with open(f, "w") as fh:
+        fh.write("From Slinky Require Import Model.Types Model.Dump.\nFrom Coq Require Import String List.\n"
+                 "Import ListNotations.\nLocal Open Scope string_scope.\n")
+        fh.write("\n".join(items))
+    r = sh(["bash", "-c", "ulimit -s unlimited 2>/dev/null; exec coqc -Q %s Slinky %s" % (os.path.join(VERIF, "coq"), f)],
+           cwd=adir, timeout=900)
+    if r.returncode != 0:
+        if "Unable to unify" in r.stdout or "true = " in r.stdout or "false" in r.stdout:
+            return len(items), "vm_compute evaluation of the model differs from the extracted program: " + r.stdout[-600:]
+        raise RuntimeError("coqc could not evaluate the cross-check file: " + r.stdout[-300:])
+    return len(items), None
+
+
 def corpus_cases(pid, tier="quick"):
     from . import run
     out = []
@@ -184,8 +217,21 @@ def safe_for_files(doc, opts):
 def write_replay(pid, seed, n, payload):
     os.makedirs(os.path.join(VERIF, "replays"), exist_ok=True)
     p = os.path.join(VERIF, "replays", "%s-%d-%d.json" % (pid, seed, n))
+    try:
+        text = json.dumps(payload, indent=1, default=str)
+    except RecursionError:
+        # a hostile, very deeply nested case: keep the raw bytes only
+        slim = dict(payload)
+        for k in ("case", "original_case"):
+            v = slim.get(k)
+            if isinstance(v, dict) and v.get("raw_yaml_hex"):
+                slim[k] = {"id": v.get("id"), "raw_yaml_hex": v["raw_yaml_hex"], "opts": v.get("opts"),
+                           "partial": v.get("partial"), "emit_version": v.get("emit_version")}
+            else:
+                slim[k] = str(v)[:2000]
+        text = json.dumps(slim, indent=1, default=str)
     with open(p, "w") as f:
-        json.dump(payload, f, indent=1, default=str)
+        f.write(text)
     return p
 
 
@@ -226,8 +272,17 @@ def run_check(pid, tier, seed, replay=None, ncases=None):
     samples = []
     diff_cases = []
     fail_cases = []
+    xcheck_n = 0
     if driver_ok:
         impl, model = run.run_cases(cases)
+        try:
+            xcheck_n, xerr = crosscheck_extraction(pid, [c for c in cases if c.cid.startswith("g")], run.LAST_MODEL_RAW,
+                                                   6 if tier == "quick" else 60)
+        except Exception as e:
+            xerr = None
+            notes.append("extraction cross-check could not run: %s" % e)
+        if xerr:
+            proof_broken.append(xerr)
         obs = props.OBS[pid]
         for c in cases:
             ji, jm = impl.get(c.cid, {"crash": "no result"}), model.get(c.cid)
@@ -267,6 +322,8 @@ def run_check(pid, tier, seed, replay=None, ncases=None):
         dyn_payload[id(e["case"])] = {k: v for k, v in e.items() if k not in ("case", "impl", "what")}
     stats["features"].update(extra.get("features", {}))
     stats["evaluations"] += extra.get("evaluations", 0)
+    if extra.get("proof_broken"):
+        proof_broken.append(extra["proof_broken"])
     if extra.get("ld_model_mismatch"):
         notes.append("LdSem differs from GNU ld on %d linked cases (model of the linker, not of /repo): %s"
                      % (len(extra["ld_model_mismatch"]), json.dumps(extra["ld_model_mismatch"][:3], default=str)))
@@ -328,6 +385,7 @@ def run_check(pid, tier, seed, replay=None, ncases=None):
             "rule": monitors.RULES.get(pid, monitors.DEFAULT_RULE),
             "samples": samples or [{"note": "no successful non-trivial case in this run"}],
             "traces_validated_against_impl": stats["evaluations"],
+            "extraction_crosscheck_cases": xcheck_n,
             "correspondence_differences": stats["diffs"],
             "monitor_failures": stats["monitor_fail"],
             "known_finding_hits": stats["known_hits"],
